@@ -38,12 +38,18 @@ def strat1d(tier):
         implicit = st.builds(lambda i, c: (i, c), st.sampled_from(im), gen.logf(-1, 1.5) if lin else gen.f(0.05, 2.0))
         # rough: 0 smooth data + any reconstruction; 1 rough data + robust reconstruction; 2 rough (steeper) data + any reconstruction: extrapolated face states may then be
         # inadmissible - the operator is still a function of the data only, so even its non-finite entries must move with the shift (operator level only)
-        return st.builds(lambda n, L, x0, rough, num_r, num_s, s_r, s_s, s_x, fl, ic, ns, k, dtl: dict(model=md, mesh=dict(kind="uni", n=n, length=L, x0=x0), num=(num_r if rough == 1 else num_s),
-                                                                                               state=(s_s if rough == 0 else s_r if rough == 1 else s_x), flux=fl, integ=ic[0], cfl=ic[1],
-                                                                                               nsteps=(ns if rough != 2 else 0), shift=k, dtlocal=(dtl and ic[0] != "gear"), steep=(rough == 2)),
+        def mk(n, L, x0, rough, num_r, num_s, s_r, s_s, s_x, fl, ic, ns, k, dtl, mid, nm, icm):
+            if mid and rough != 2:
+                # one case in five: a mid-size mesh (40..100 cells, too large for the small class, small enough to be stepped) with an implicit integrator
+                n, ic, ns = nm, icm, max(1, ns)
+            return dict(model=md, mesh=dict(kind="uni", n=n, length=L, x0=x0), num=(num_r if rough == 1 else num_s),
+                        state=(s_s if rough == 0 else s_r if rough == 1 else s_x), flux=fl, integ=ic[0], cfl=ic[1],
+                        nsteps=(ns if rough != 2 else 0), shift=k, dtlocal=(dtl and ic[0] != "gear"), steep=(rough == 2))
+        return st.builds(mk,
                          st.one_of(st.integers(2, 4), st.integers(2, nmax), st.integers(2, nmax), st.sampled_from([129, 300])), st.one_of(gen.logf(-1, 1), gen.logf(-1, 1), gen.logf(-9, 4)), st.one_of(st.just(0.0), gen.f(-2, 2)), st.sampled_from([0, 0, 1, 1, 2]), gen.num_robust(), gen.num_any(),
                          gen.state_for(md, True, lnrange=1.0, machmax=1.5), gen.state_for(md, False, lnrange=0.7, machmax=1.2, smooth_amp=0.05), gen.state_for(md, True, lnrange=2.5, machmax=1.5),
-                         st.sampled_from(cases.flux_names(fmd)), st.one_of(explicit, explicit, implicit), st.integers(0, 6), st.integers(-40, 40), st.sampled_from([False, False, True]))
+                         st.sampled_from(cases.flux_names(fmd)), st.one_of(explicit, explicit, implicit), st.integers(0, 6), st.integers(-40, 40), st.sampled_from([False, False, True]),
+                         st.sampled_from([0, 0, 0, 0, 1]), st.integers(40, 100), implicit)
     return _models().flatmap(cfg)
 
 
